@@ -226,6 +226,9 @@ func (g *grpcClient) WriteRequestHeader(_ StreamType, header http.Header) {
 	// compress the whole stream. By default, http.Client will ask the server
 	// to gzip the stream if we don't set Accept-Encoding.
 	header["Accept-Encoding"] = []string{compressionIdentity}
+	// Likewise, the body as a whole isn't compressed, whatever an earlier use of
+	// this header map (a reused or forwarded Request) said about its own.
+	delete(header, "Content-Encoding")
 	if g.CompressionName != "" && g.CompressionName != compressionIdentity {
 		header[grpcHeaderCompression] = []string{g.CompressionName}
 	} else {
